@@ -503,6 +503,96 @@ def canonical(case):
     return {**case, "srcs": srcs}
 
 
+def named_specs(spec, out):
+    """Every class spec inside a logical spec (containers, nested init args) that names its class by the bare name."""
+    if isinstance(spec, list):
+        for s in spec:
+            named_specs(s, out)
+    elif isinstance(spec, dict):
+        if spec.get("c") and spec.get("by") == "name":
+            out.append(spec)
+        for key in ("list", "append", "last", "key", "dict", "a"):
+            if key in spec:
+                v = spec[key]
+                named_specs(list(v.values()) if isinstance(v, dict) and key in ("dict", "a") else v, out)
+    return out
+
+
+def by_path(case):
+    """The same history with every bare class name replaced by the full class path."""
+    other = copy.deepcopy(case)
+    for ch, form, spec in other["srcs"]:
+        for s in named_specs(spec, []):
+            s["by"] = "path"
+    return other
+
+
+def declared_classes(typ, seen):
+    """Every class that is the declared class of some class-typed position at or below a position of type `typ`."""
+    kind, payload = M.split_type(typ)
+    if kind in ("list", "dict"):
+        declared_classes(payload, seen)
+    elif kind == "class":
+        for m in payload[0]:
+            if m not in seen:
+                seen.append(m)
+                for c in M.all_subclasses(m):
+                    for ann, _ in M.params(c)[0].values():
+                        declared_classes(ann, seen)
+    return seen
+
+
+def lineage(cls, declared):
+    """How `cls` descends from the declared class: direct | via-concrete | via-abstract | via-private | diamond."""
+    import inspect
+
+    between = [k for k in cls.__mro__[1:] if k is not declared and issubclass(k, declared)]
+
+    def lines(c):
+        return 1 if c is declared else sum(lines(b) for b in c.__bases__ if issubclass(b, declared))
+
+    if any(inspect.isabstract(k) for k in between):
+        return "via-abstract"
+    if any(k.__name__.startswith("_") for k in between):
+        return "via-private"
+    if lines(cls) > 1:
+        return "diamond"
+    return "via-concrete" if between else "direct"
+
+
+def name_only_rejection(case, T, J):
+    """A valid history that names classes by their bare name was rejected: is the same history with full class paths
+    accepted?  Then the root cause is the resolution of the name, and the signature says through which kind of
+    intermediate classes the named class descends from the declared one.  -> signature suffix or None."""
+    named = [s for ch, form, spec in case["srcs"] for s in named_specs(spec, [])]
+    if not named:
+        return None
+    _, _, o2, _ = parse_once(by_path(case), J)
+    if o2["kind"] != "ok":
+        return None
+    labels = {lineage_of(case["t"], T, s["c"]) for s in named}
+    for lab in ("via-abstract", "via-private", "diamond", "via-concrete", "direct"):
+        if lab in labels:
+            return lab
+    return "unrelated"
+
+
+_lin_cache = {}
+
+
+def lineage_of(tname, T, tok):
+    """Lineage label of class token `tok` relative to the first declared class below `T` it is a subclass of."""
+    key = (tname, tok)
+    if key not in _lin_cache:
+        cls, lab = M.my_import(M.TOKENS[tok]), None
+        for d in declared_classes(T, []):
+            if isinstance(cls, type) and issubclass(cls, d):
+                lab = lineage(cls, d)
+                break
+        _lin_cache[key] = lab
+    return _lin_cache[key]
+
+
 def check_instances(p, cfg, eff, shown, devs, stat, top=False):
     """instantiate_classes on an accepted configuration, judged by the constructor log."""
     from mc.util import outcome
@@ -606,6 +696,11 @@ def evaluate(case):
             # length (or after an empty one) - named by that shape, whatever the notation and the declared type
             devs.append(("reject-valid:classless-element-in-resized-container", f"{shown} rejected: {o['message'][:300]}; model expects {M.describe(exp)}"))
             return devs, stats
+        lin = name_only_rejection(case, T, J)
+        if lin:
+            # short form "class name only" refused where the full class path of the same class is accepted
+            devs.append((f"reject-valid:name-only:{lin}", f"{shown} rejected: {o['message'][:300]}; the same with full class paths is accepted; model expects {M.describe(exp)}"))
+            return devs, stats
         devs.append((f"reject-valid:form-{last_form}:{kind}{multi}", f"{shown} rejected: {o['message'][:300]}; model expects {M.describe(exp)}"))
         return devs, stats
     stat("accepted")
@@ -627,6 +722,8 @@ def evaluate(case):
         return devs, stats
     if want_d is not None and not (isinstance(want_d, dict) and "instance" in want_d):
         stat("nontrivial")
+    for lab in {lineage_of(case["t"], T, s["c"]) for ch, form, spec in case["srcs"] for s in named_specs(spec, [])}:
+        stat(f"name_only_accepted:{lab}")  # a class given by its bare name, resolved to the class the model expects
     check_instances(p, cfg, exp, shown, devs, stat, top=case.get("st") == "top")
     return devs, stats
 
@@ -748,6 +845,7 @@ def explore(ctx):
             "class_tokens": len(M.TOKENS),
             "sources_per_case": "1-3",
             "list_length": 2 if quick else 3,
+            "lineage": "named class below the declared one: directly, via a concrete / one or two abstract / a private intermediate class, along two lines (diamond); abstract intermediate below an abstract and below a concrete root",
             "sibling_positions": "HoldPair(inner, inner2) / HoldPairR(inner2, inner): nested class, class group, top-level arguments",
             "regiven_containers": "List/Dict of 0-3 elements given again: elements x {own, shared, foreign init arg without class_path, same class, other class}"
             + (" (3 elements: single-position mutations + uniform; first containers: rotations)" if quick else " (full product, all permutations)")
@@ -774,6 +872,8 @@ def explore(ctx):
     ctx.require(totals.get("regiven", 0) >= 300, ">= 300 accepted histories in which a whole list / dict of classes is given again")
     ctx.require(totals.get("toplevel_accepted", 0) >= 60, ">= 60 accepted cases with sibling class-typed top-level arguments")
     ctx.require(totals.get("siblings/instantiated", 0) >= 200 and totals.get("recontainer/instantiated", 0) >= 200, "siblings and recontainer families: >= 200 instantiated configurations each")
+    for lab in ("direct", "via-concrete", "via-abstract", "via-private", "diamond"):
+        ctx.require(totals.get("name_only_accepted:" + lab, 0) >= 10, f">= 10 accepted cases name a class by its bare name that descends from the declared class {lab}")
     for reason in ("wrong-class", "callable-return-not-subclass", "not-a-class:module", "not-a-class:object", "not-importable",
                    "unknown-init-arg", "ill-typed-init-arg", "missing-required", "ambiguous-name", "unresolvable-name", "no-implicit-class"):  # fmt: skip
         ctx.require(rejected_reasons.get(reason, 0) >= 10, f"model rejection reason {reason} occurs >= 10 times")
